@@ -149,6 +149,8 @@ def check(ctx):
         rep.analysed(rel, f.qualname)
         uncond, cond = set(), set()
 
+        helper_stack = []
+
         def scan(body, conditional):
             for st in body:
                 if isinstance(st, ast.If) and st.orelse:
@@ -180,13 +182,22 @@ def check(ctx):
                     if isinstance(n, ast.Call) and isinstance(n.func, ast.Attribute) and n.func.attr == "add_transform" and n.args:
                         nm = (norm(n.args[0])).split(".")[-1]
                         (cond if conditional else uncond).add(nm)
-                    elif isinstance(n, ast.Call) and isinstance(n.func, ast.Name):
-                        # helper that adds transforms to the program passed to it (same module)
-                        g = f.module.functions.get(n.func.id)
-                        if g is not None:
-                            for k in walk_shallow(g.node):
-                                if isinstance(k, ast.Call) and isinstance(k.func, ast.Attribute) and k.func.attr == "add_transform" and k.args:
-                                    cond.add(norm(k.args[0]).split(".")[-1])
+                    elif isinstance(n, ast.Call) and (isinstance(n.func, ast.Name) or (
+                            isinstance(n.func, ast.Attribute) and isinstance(n.func.value, ast.Name) and n.func.value.id in ("self", "cls"))):
+                        # helper that adds transforms to the program passed to it (function of the module / method of the class):
+                        # its body is scanned in place, under the same conditionality as the call
+                        if isinstance(n.func, ast.Name):
+                            g = f.module.functions.get(n.func.id)
+                        else:
+                            g = None
+                            if f.cls is not None:
+                                _c, g = f.cls.lookup(n.func.attr)
+                                if not hasattr(g, "node"):
+                                    g = None
+                        if g is not None and g.node not in helper_stack and len(helper_stack) < 4:
+                            helper_stack.append(g.node)
+                            scan(g.node.body, conditional)
+                            helper_stack.pop()
 
         scan(f.node.body, False)
         for t in sorted(required):
